@@ -73,6 +73,16 @@ Theorem C07_xorb_range_length : forall lz4c choose cashash chunks hashes scheme 
   uncompressed_range_length (built_info lz4c choose cashash chunks hashes scheme) a b =
   ROk (N.of_nat (length (concat (firstn (N.to_nat (b - a)) (skipn (N.to_nat a) chunks))))).
 Proof. exact xorb_uncompressed_range_length. Qed.
+(* two adjacent chunk ranges read back to pieces whose concatenation is the read of their union: a term split over two fetches
+   (or a fetch covering two terms) loses and repeats no byte *)
+Theorem C07_adjacent_ranges_concat : forall lz4c lz4d choose,
+  (forall x, lz4d (lz4c x) = Some x) -> (forall x, choose x <= MAX_SCHEME) ->
+  forall cashash chunks hashes scheme a b c,
+  xorb_input_ok cashash chunks hashes -> fold_right N.add 0 (phys_lens lz4c choose chunks scheme) < 4294967296 ->
+  bytes_eqb cashash zero_hash = false -> scheme_valid scheme -> a < b -> b < c -> c <= N.of_nat (length chunks) ->
+  let rd := get_bytes_by_chunk_range lz4d (built_info lz4c choose cashash chunks hashes scheme) (xorb_serialize lz4c choose cashash chunks hashes scheme) in
+  exists x y, rd a b = ROk x /\ rd b c = ROk y /\ rd a c = ROk (x ++ y).
+Proof. exact xorb_adjacent_ranges_concat. Qed.
 Example C07_range_nonvacuous :
   let lz4c := fun x : list N => x in let lz4d := fun x : list N => Some x in let choose := fun _ : list N => 2 in
   get_bytes_by_chunk_range lz4d (built_info lz4c choose (repeat 5 32%nat) [[1; 2; 3]; [9]; [7; 7]] [repeat 1 32%nat; repeat 2 32%nat; repeat 3 32%nat] None)
@@ -95,3 +105,4 @@ Print Assumptions C07_xorb_footer_roundtrip.
 Print Assumptions C07_xorb_get_all_bytes.
 Print Assumptions C07_xorb_get_chunk_range.
 Print Assumptions C07_xorb_range_length.
+Print Assumptions C07_adjacent_ranges_concat.
